@@ -939,6 +939,30 @@ fn gen_component(rng: &mut Rng, sw: &Swarm, index: usize) -> Component {
             }
         }
     }
+    // enums are rarely the type of a property by chance; when defaults are in play
+    // every second enum definition gets a struct that holds it (directly, optionally
+    // nullable, and in a list), so that enum-typed defaults of every tagging occur
+    if sw.defaults > 0 {
+        let enums: Vec<String> = defs.iter().filter(|(_, d)| d.get("oneOf").is_some() || d.get("anyOf").is_some() || (d.get("enum").is_some() && d.get("type") == Some(&json!("string")))).map(|(n, _)| n.clone()).collect();
+        for e in enums {
+            if !rng.chance(1, 2) {
+                continue;
+            }
+            let holder = if e.contains('_') { format!("{e}_holder") } else if e.contains('-') { format!("{e}-holder") } else { format!("{e}Holder") };
+            if defs.contains_key(&holder) {
+                continue;
+            }
+            let mut props = Map::new();
+            props.insert("one".into(), r(&e));
+            if sw.nullable && rng.chance(1, 2) {
+                props.insert("maybe".into(), json!({"anyOf": [r(&e), {"type": "null"}]}));
+            }
+            if rng.chance(1, 2) {
+                props.insert("many".into(), json!({"type": "array", "items": r(&e)}));
+            }
+            defs.insert(holder, json!({"type": "object", "properties": props}));
+        }
+    }
     // second pass: defaults
     if sw.defaults > 0 {
         let defs_model: Defs = defs.clone();
